@@ -388,7 +388,14 @@ func genHullCase(t *rapid.T) hullCase {
 			for sp.Type != "polygon" {
 				sp = gen.ShapeSpec{Type: "polygon", Loops: [][]gen.P{gen.StarLoopAt(t, l+".pl", lc, 30, math.Min(spread, 1.39)).V}}
 			}
-			hc.Items = append(hc.Items, hullItem{Type: "polygon", V: sp.Loops})
+			if len(sp.Loops) >= 2 && rapid.IntRange(0, 2).Draw(t, l+".reuse") == 0 {
+				// the polygon added to the query is built from a loop OBJECT that
+				// was a hole of another polygon before (its nesting depth must not
+				// leak into the new single-loop polygon)
+				hc.Items = append(hc.Items, hullItem{Type: "reusedhole", V: sp.Loops[:2]})
+			} else {
+				hc.Items = append(hc.Items, hullItem{Type: "polygon", V: sp.Loops})
+			}
 		}
 	}
 	return hc
@@ -486,6 +493,26 @@ func checkHull(c hullCase) (o ev.Outcome) {
 			q.AddLoop(l)
 			loops = append(loops, l)
 			pts = append(pts, gen.Pts(it.V[0])...)
+		case "reusedhole":
+			if len(it.V) < 2 {
+				o.Skip = true
+				return o
+			}
+			outer := s2.PolygonFromLoops([]*s2.Loop{s2.LoopFromPoints(gen.Pts(it.V[0])), s2.LoopFromPoints(gen.Pts(it.V[1]))})
+			var hole *s2.Loop
+			for k := 0; k < outer.NumLoops(); k++ {
+				if outer.Loop(k).IsHole() {
+					hole = outer.Loop(k)
+				}
+			}
+			if hole == nil || outer.Validate() != nil {
+				o.Skip = true
+				return o
+			}
+			pg := s2.PolygonFromLoops([]*s2.Loop{hole})
+			q.AddPolygon(pg)
+			loops = append(loops, s2.LoopFromPoints(hole.Vertices()))
+			pts = append(pts, hole.Vertices()...)
 		case "polygon":
 			var ls []*s2.Loop
 			for _, v := range it.V {
